@@ -61,6 +61,10 @@ def draw_write(rnd, old):
                 return old
     if roll < 0.27:
         return old       # same value again
+    if roll < 0.33 and isinstance(old, (int, float)) and not isinstance(old, bool):
+        # a number that differs from the old one only in the last digits
+        return rnd.choice((old + 1e-9, old * (1 + 1e-7) if old else 1e-9, old - 1e-12,
+                           old + 1 if abs(old) >= 1e6 else old * (1 + 1e-12) if old else 5e-324))
     if roll < 0.40:
         return round(rnd.uniform(-9, 9), 2)
     return rnd.choice(WRITE_POOL)
@@ -187,6 +191,11 @@ def gen_case(rnd, tier, index):
     ops = gen_ops(rnd, spec, cfg, n_ops,
                   restart_rate=rnd.choice((0, 0, 0.03, 0.08)),
                   set_rate=rnd.choice((0.25, 0.4, 0.55)))
+    # restart-fresh-process: ~1.5 % of the runs hand the rest of the history to a brand-new
+    # interpreter (0.7 s each)
+    restarts = [o for o in ops if o['op'] == 'restart']
+    if restarts and rnd.random() < (0.12 if tier == 'quick' else 0.2):
+        rnd.choice(restarts)['where'] = 'process'
     case = {'spec': spec, 'cfg': cfg, 'ops': ops}
     return history.legalise(case)
 
